@@ -21,6 +21,7 @@ EXPLANATION = (
     "C14); (R6) no write to caller objects / shared defaults; (R7) node-weighted plumbing (C11.R3); (R8) the greedy peeling subtracts on every edge of a peeled path exactly the value it "
     "(R9) variables the encoders treat as fixed through queued bounds are really fixed: on every path of SolverWrapper.optimize the queued updates are applied before the solver runs (must-call dataflow).  "
     " (R4, extended) the greedy route converts the bottleneck values to the requested type (round() after an integrality test that hands non-integral values to the MILP, float() otherwise) and types the padding weights; (R10) the remove-empty filters of the flow models decide emptiness on the internal route (C01.R5), and a non-integral solution_weights_superset is rejected for integer weights (the encoder uses the given values, get_solution publishes them rounded). "
+    " (R11) the flow value of every exact flow row is converted with float() before it meets the solver's == (numpy integer / float32 flows are accepted). "
     "publishes as the path's weight and the bottleneck DP reports the value of the path it reconstructs (C17.R5).  NOT decided: solver tolerance, float rounding, termination of the peeling, Eulerian "
     "reconstruction beyond C14's clause."
 )
